@@ -298,6 +298,10 @@ def trace():
     e.submit(ident, 1).result(30)
     time.sleep(1.0)
     obs("timed-out-idle", ["Start 2", "Put", "CleanExit 0", "CleanExit 0"])
+    # the workers spawned from here on get a long idle time-out (read from the executor when a worker is started): with 0.15 s they
+    # leave again while the observation settles, and the measurement below showed 0 children on a loaded machine (false alarm of the
+    # thorough tier, seed 17)
+    e._timeout = 60
     e.submit(ident, 1).result(30)
     obs("respawned", ["Start 2", "Put", "CleanExit 0", "CleanExit 0", "Spawn 2"])
     e.shutdown(wait=True); del e
